@@ -52,9 +52,11 @@ def cur():
 
 # --------------------------------------------------------------------------
 class Ctx:
+    LOGIC = [None]   # set by the runner per job (e.g. 'QF_LRA' for harnesses whose formulas are linear: much faster)
+
     def __init__(self, prefix, timeout_ms=20000, mode='sym', model=None):
         self.mode = mode  # 'sym' | 'real'
-        self.solver = z3.Solver()
+        self.solver = z3.SolverFor(Ctx.LOGIC[0]) if Ctx.LOGIC[0] else z3.Solver()
         self.solver.set('timeout', timeout_ms)
         self.prefix = list(prefix)
         self.pos = 0
